@@ -521,6 +521,8 @@ class TBRMatchedMarkets:
     """
     budget_range = self.parameters.budget_range
     results = heapdict.HeapDict(size=self.parameters.n_designs)
+    # Unspecified size ranges are filled in below: do so on a private copy.
+    self.parameters = copy.copy(self.parameters)
 
     if self.parameters.treatment_geos_range is None:
       n_treatment = len(self.geo_assignments.t)
